@@ -122,6 +122,14 @@ class ListProxy(list, ContainerValueMixin):
         )
 
     def _get_item_position(self, item: Any) -> str:
+        if isinstance(item, Config):
+            # configurations may compare equal (ConfigType.__eq__ compares the values), look
+            # for this very object so that an equal earlier item does not steal the position
+            for index, existing in enumerate(self):
+                if existing is item:
+                    return str(index)
+            return str(len(self))
+
         try:
             return str(self.index(item))
         except:  # noqa: E722
